@@ -600,6 +600,16 @@ def inline_module(tree: ast.Module, known: Optional[Set[str]]) -> ast.Module:
                 tail = [st2]
                 if isinstance(st2, ast.Assign) and len(st2.targets) == 1 and isinstance(st2.targets[0], ast.Name) and isinstance(st2.value, ast.Name) and st2.value.id == st2.targets[0].id:
                     tail = []  # x = x
+                elif direct is not None and isinstance(st2, ast.Assign) and len(st2.targets) == 1 and isinstance(st2.targets[0], ast.Tuple) and isinstance(st2.value, ast.Tuple) \
+                        and len(st2.targets[0].elts) == len(st2.value.elts) and all(isinstance(t, ast.Name) for t in st2.targets[0].elts) and not any(isinstance(v, ast.Starred) for v in st2.value.elts):
+                    # a, b = (x, y)  with the helper's returned tuple in hand: two plain assignments, when no element reads a target
+                    tnames = {t.id for t in st2.targets[0].elts}
+                    if not any(isinstance(x, ast.Name) and x.id in tnames for v in st2.value.elts for x in ast.walk(v)):
+                        tail = []
+                        for t, v in zip(st2.targets[0].elts, st2.value.elts):
+                            if isinstance(v, ast.Name) and v.id == t.id:
+                                continue
+                            tail.append(ast.copy_location(ast.Assign(targets=[ast.Name(id=t.id, ctx=ast.Store())], value=v, lineno=st.lineno), st))
             elif mode == "return":
                 tail = [ast.copy_location(ast.Return(value=ast.copy_location(res_expr, st)), st)]
             # helpers called by the helper are expanded in turn
